@@ -170,10 +170,9 @@ impl KsDump {
             Some(_) => return json!({"id": id, "op": "cut"}),
             None => return json!({"id": id, "op": "leaf"}),
         };
-        if fs.len() > 1 {
-            return json!({"id": id, "op": "ambiguous", "n": fs.len()});
-        }
-        match &fs[0] {
+        // several different calls produced these bytes (only plausible for very short outputs, e.g. a
+        // 1-byte export): the most recent one is the call the claim was made for
+        match &fs[fs.len() - 1] {
             Fact::Extract { salt, ikm } => json!({"id": id, "op": "extract", "salt": self.prov(*salt, d - 1), "ikm": self.prov(*ikm, d - 1)}),
             Fact::Expand { prk, label, ctx, ctx_len, lenfield, len, ctx_bytes } => {
                 let t = &ctx_bytes[ctx_bytes.len().saturating_sub(4)..];
